@@ -16,6 +16,8 @@ SchemaP == SchemaF(<<
     <<"blob", BytesF>>,
     <<"bl", ListF(With(BytesF, [encoding |-> "hex"]))>>,
     <<"sl", ListF(SecureF)>>,
+    \* secrets two list levels down (rotation history per credential): every leaf is a secret all the same
+    <<"nl", ListF(ListF(SecureF))>>,
     <<"dd", DictF(StringF, BytesF)>>,
     <<"api", With(StringF, [sensitive |-> TRUE])>>,
     <<"dflt", With(DictF(StringF, IntF), [default |-> D2(<<"a">>, IntV(1), <<"b">>, IntV(2))])>>,
@@ -28,8 +30,8 @@ SchemaP == SchemaF(<<
     <<"virt", VirtualF>>,
     <<"svirt", VirtualF @@ [sensitive |-> TRUE]>> >>)
 
-MCKeyNames == {"sitems", "dflt", "dl", "name", "pw", "hash", "blob", "bl", "sl", "dd", "api", "sub", "tok", "port", "vault", "sec", "inner", "n", "items", "u", "virt", "svirt"}
-MCKeyChars == [k \in MCKeyNames |-> CASE k = "sitems" -> <<"s", "i", "t", "e", "m", "s">> [] k = "dflt" -> <<"d", "f", "l", "t">> [] k = "dl" -> <<"d", "l">> [] k = "name" -> <<"n", "a", "m", "e">> [] k = "pw" -> <<"p", "w">> [] k = "hash" -> <<"h", "a", "s", "h">> [] k = "blob" -> <<"b", "l", "o", "b">> [] k = "bl" -> <<"b", "l">> [] k = "sl" -> <<"s", "l">> [] k = "dd" -> <<"d", "d">> [] k = "api" -> <<"a", "p", "i">> [] k = "sub" -> <<"s", "u", "b">> [] k = "tok" -> <<"t", "o", "k">> [] k = "port" -> <<"p", "o", "r", "t">> [] k = "vault" -> <<"v", "a", "u", "l", "t">> [] k = "sec" -> <<"s", "e", "c">> [] k = "inner" -> <<"i", "n", "n", "e", "r">> [] k = "n" -> <<"n">> [] k = "items" -> <<"i", "t", "e", "m", "s">> [] k = "u" -> <<"u">> [] k = "virt" -> <<"v", "i", "r", "t">> [] k = "svirt" -> <<"s", "v", "i", "r", "t">>]
+MCKeyNames == {"nl", "sitems", "dflt", "dl", "name", "pw", "hash", "blob", "bl", "sl", "dd", "api", "sub", "tok", "port", "vault", "sec", "inner", "n", "items", "u", "virt", "svirt"}
+MCKeyChars == [k \in MCKeyNames |-> CASE k = "nl" -> <<"n", "l">> [] k = "sitems" -> <<"s", "i", "t", "e", "m", "s">> [] k = "dflt" -> <<"d", "f", "l", "t">> [] k = "dl" -> <<"d", "l">> [] k = "name" -> <<"n", "a", "m", "e">> [] k = "pw" -> <<"p", "w">> [] k = "hash" -> <<"h", "a", "s", "h">> [] k = "blob" -> <<"b", "l", "o", "b">> [] k = "bl" -> <<"b", "l">> [] k = "sl" -> <<"s", "l">> [] k = "dd" -> <<"d", "d">> [] k = "api" -> <<"a", "p", "i">> [] k = "sub" -> <<"s", "u", "b">> [] k = "tok" -> <<"t", "o", "k">> [] k = "port" -> <<"p", "o", "r", "t">> [] k = "vault" -> <<"v", "a", "u", "l", "t">> [] k = "sec" -> <<"s", "e", "c">> [] k = "inner" -> <<"i", "n", "n", "e", "r">> [] k = "n" -> <<"n">> [] k = "items" -> <<"i", "t", "e", "m", "s">> [] k = "u" -> <<"u">> [] k = "virt" -> <<"v", "i", "r", "t">> [] k = "svirt" -> <<"s", "v", "i", "r", "t">>]
 MCEnviron == [x \in {<<"N", "V">>} |-> <<>>]
 
 \* a ready-made instance of the vault type (it names its own key file) with secrets already set
@@ -40,7 +42,7 @@ VaultObj == LET d == DefaultCfg(VaultF, <<"vault">>).cfg
 LongSecret == StrV(<<"0", "1", "2", "3", "4", "5", "6", "7", "8", "9", "a", "b", "c", "d", "e", "f", "g", "h", "i", "j",
                      "k", "l", "m", "n", "o", "p", "q", "r", "s", "t", "u", "v", "w", "x", "y", "z", "A", "B", "C", "D", "#", "!">>)
 MCSetCands ==
-    [pk \in {<< <<>>, "sitems">>, << <<>>, "dflt">>, << <<>>, "dl">>, << <<>>, "name">>, << <<>>, "pw">>, << <<>>, "hash">>, << <<>>, "blob">>, << <<>>, "bl">>, << <<>>, "sl">>,
+    [pk \in {<< <<>>, "nl">>, << <<>>, "sitems">>, << <<>>, "dflt">>, << <<>>, "dl">>, << <<>>, "name">>, << <<>>, "pw">>, << <<>>, "hash">>, << <<>>, "blob">>, << <<>>, "bl">>, << <<>>, "sl">>,
              << <<>>, "dd">>, << <<>>, "api">>, << <<"sub">>, "tok">>, << <<>>, "vault">>, << <<"vault">>, "sec">>,
              << <<"vault", "inner">>, "tok">>, << <<>>, "items">>} |->
         CASE pk[2] = "sitems" -> {ListV(<<D2(<<"u">>, StrV(<<"s", "a", "m">>), <<"p", "w">>, StrV(<<"s", "i", "t", "e", "m", "p", "w", "#", "7">>))>>)}
@@ -55,6 +57,7 @@ MCSetCands ==
           [] pk[2] = "bl"    -> {ListV(<<BytesV(<<1, 2>>), StrV(<<"a", "b">>)>>)}
           [] pk[2] = "sl"    -> {ListV(<<StrV(<<"l", "i", "s", "t", "s", "e", "c", "r", "e", "t", "1">>), StrV(<<>>)>>)}
           \* (map keys that are XML names with "-" and ".")
+          [] pk[2] = "nl"    -> {ListV(<<ListV(<<StrV(<<"n", "e", "s", "t", "e", "d", "s", "e", "c", "#", "1">>), StrV(<<>>)>>), ListV(<<>>)>>)}
           [] pk[2] = "dd"    -> {D1(<<"k">>, BytesV(<<7>>)), D2(<<"k", "-", "1", ".", "x">>, BytesV(<<8>>), <<"k", "_", "1", "_", "x">>, BytesV(<<9>>))}
           [] pk[2] = "api"   -> {StrV(<<"A", "P", "I", "K", "E", "Y", "-", "7", "7">>)}
           \* (an AES secret of exactly one cipher block: the padding block must still be written)
